@@ -206,6 +206,9 @@ def gen_value(rng, fd, missing=0.12):
     if k == "lit":
         ln = rng.randint(0, n)
         alpha = "abcXYZ019 .-_/éñ" if rng.random() < 0.3 else "abcXYZ019 .-_/"
+        if rng.random() < 0.08:
+            # characters that str.splitlines() / str.strip() treat specially but readline() does not end a line at
+            alpha = alpha + "\x0c\x1c\x85\u2028\x0b"
         s = "".join(rng.choice(alpha) for _ in range(ln)).strip()
         return ["str", s]
     if k == "int":
